@@ -627,6 +627,66 @@ pub fn traverse_df(r: &mut df::Reader, pre: &Option<Pre>, t: &mut Tally) -> DfDu
         let _ = r.find_item(ty, id);
         let _ = r.find_item(ty, id.wrapping_add(1));
     }
+    // Self-consistency of what an accepted file exposes (follows from the validation pass: types are
+    // sequential ranges over the items, every item of a range carries the range's type).
+    let incons = |msg: String| {
+        RANGE_ERR.with(|e| {
+            let mut e = e.borrow_mut();
+            if e.is_none() {
+                *e = Some(msg);
+            }
+        })
+    };
+    if d.items.len() != ni {
+        incons(format!("items() yields {} items, num_items() = {}", d.items.len(), ni));
+    }
+    if d.types.len() != nt {
+        incons(format!("item_types() yields {} types, num_item_types() = {}", d.types.len(), nt));
+    }
+    for i in 0..ni.min(d.items.len()) {
+        burn();
+        let v = view(r.item(i));
+        if v != d.items[i] {
+            incons(format!("item({}) = ({}, {}, {} words) but items() yields ({}, {}, {} words) at that position", i, v.0, v.1, v.2.len(), d.items[i].0, d.items[i].1, d.items[i].2.len()));
+            break;
+        }
+    }
+    let mut covered = 0usize;
+    for &ty in &d.types {
+        burn();
+        let range = r.item_type_indices(ty);
+        if range.start != covered || range.end < range.start || range.end > ni {
+            incons(format!("item_type_indices({}) = {:?}: not the next run of the {} items (previous types end at {})", ty, range, ni, covered));
+            break;
+        }
+        covered = range.end;
+        let listed: Vec<(u16, u16, Vec<i32>)> = r.item_type_items(ty).map(view).collect();
+        if listed.len() != range.len() || listed.iter().any(|it| it.0 != ty) || listed[..] != d.items[range.clone()] {
+            incons(format!("item_type_items({}) yields {} items (types {:?}..), item_type_indices says {:?}", ty, listed.len(), listed.iter().map(|it| it.0).take(4).collect::<Vec<_>>(), range));
+            break;
+        }
+    }
+    if d.types.len() == nt && covered != ni && !d.types.is_empty() {
+        incons(format!("the item types cover {} of {} items", covered, ni));
+    }
+    for i in 0..d.items.len().min(48) {
+        burn();
+        let (ty, id) = (d.items[i].0, d.items[i].1);
+        match r.find_item(ty, id) {
+            Some(it) => {
+                if it.type_id != ty || it.id != id {
+                    incons(format!("find_item({}, {}) returned an item ({}, {})", ty, id, it.type_id, it.id));
+                }
+            }
+            None => incons(format!("find_item({}, {}) = None although items() lists such an item at position {}", ty, id, i)),
+        }
+        let absent = id.wrapping_add(1);
+        if let Some(it) = r.find_item(ty, absent) {
+            if it.type_id != ty || it.id != absent || !d.items.iter().any(|x| x.0 == ty && x.1 == absent) {
+                incons(format!("find_item({}, {}) returned ({}, {}), which items() does not list", ty, absent, it.type_id, it.id));
+            }
+        }
+    }
     let mut all_allowed = true;
     for i in 0..nd {
         burn();
@@ -976,6 +1036,7 @@ pub fn check_total(bytes: &[u8], mode: u8, as_map: u8, known: Known, t: &mut Tal
         return Ok(Verdict::SkippedKnown);
     }
     set_fuel(2_000_000);
+    let _ = take_range_err();
     let r = guard(|| -> Verdict {
         let mut r = match open_df(bytes, mode) {
             Ok(r) => r,
@@ -985,7 +1046,44 @@ pub fn check_total(bytes: &[u8], mode: u8, as_map: u8, known: Known, t: &mut Tal
             }
         };
         bump(t, "open:accepted");
-        let _ = traverse_df(&mut r, &pre, t);
+        let d = traverse_df(&mut r, &pre, t);
+        // what read_data returns for a block must not depend on what was read (or failed) before:
+        // a second reader takes the blocks in reverse order
+        if d.data.iter().any(|x| x.is_none()) && d.data.iter().any(|x| x.is_some()) {
+            if let Ok(mut r2) = open_df(bytes, mode) {
+                for i in (0..d.data.len()).rev() {
+                    burn();
+                    if !data_allowed(&pre, i) {
+                        continue;
+                    }
+                    if let (Ok(v), Some(first)) = (r2.read_data(i), &d.data[i]) {
+                        if v != *first {
+                            RANGE_ERR.with(|e| {
+                                let mut e = e.borrow_mut();
+                                if e.is_none() {
+                                    *e = Some(format!("read_data({}) gives {} bytes when the blocks are read in ascending order and {} bytes when read in descending order by a second reader", i, first.len(), v.len()));
+                                }
+                            });
+                        }
+                    }
+                }
+                bump(t, "data:reread_in_reverse_after_a_failure");
+            }
+        }
+        if let Some(Pre { sizes: Some(sz), .. }) = &pre {
+            for (i, x) in d.data.iter().enumerate() {
+                if let (Some(v), Some(&declared)) = (x, sz.get(i)) {
+                    if v.len() as i64 != declared as i64 {
+                        RANGE_ERR.with(|e| {
+                            let mut e = e.borrow_mut();
+                            if e.is_none() {
+                                *e = Some(format!("read_data({}) returned {} bytes, the file declares an uncompressed size of {}", i, v.len(), declared));
+                            }
+                        });
+                    }
+                }
+            }
+        }
         if as_map > 0 {
             let _ = traverse_map(r, &pre, as_map > 1, t);
         }
@@ -995,7 +1093,7 @@ pub fn check_total(bytes: &[u8], mode: u8, as_map: u8, known: Known, t: &mut Tal
     let range_err = take_range_err();
     let v = r.map_err(|p| p.to_string())?;
     if let Some(e) = range_err {
-        return Err(format!("map accessor handed out an index outside the range it refers to: {}", e));
+        return Err(format!("accepted file: an accessor hands out something inconsistent with the rest of the reader: {}", e));
     }
     Ok(v)
 }
@@ -1094,8 +1192,12 @@ fn check_wellformed(c: &WellCase) -> PResult {
         Ok(r) => r,
         Err(e) => return Err(format!("well-formed version {} file ({} bytes) refused: {:?}", m.version, bytes.len(), e)),
     };
+    let _ = take_range_err();
     let d = guard(|| traverse_df(&mut r, &pre, &mut t)).map_err(|p| format!("traversal: {}", p))?;
     unlimited_fuel();
+    if let Some(e) = take_range_err() {
+        return Err(format!("well-formed file: the reader's accessors disagree with each other: {}", e));
+    }
     match (m.version, d.version) {
         (3, Some(df::Version::V3)) | (4, Some(df::Version::V4)) | (4, Some(df::Version::V4Crude)) => {}
         (v, got) => return Err(format!("file of version {} reported as {:?}", v, got)),
